@@ -263,3 +263,34 @@ status_family! {
     c12_status_pawn: 0; c12_status_knight: 1; c12_status_bishop: 2; c12_status_rook: 3;
     c12_status_queen: 4; c12_status_king: 5;
 }
+
+// O-C12.status.double-check: in double check the exact answer has a closed form (only king moves can be
+// legal; castling is impossible): status() == table(king has a safe destination, in check, clock).
+// The two oracle facts used are proved alongside for a universally quantified move.
+board_proof! {
+    #[kani::unwind(9)]
+    fn c12_status_double_check() {
+        let p = any_inv_pos();
+        kani::assume(sp::spec_checkers(&p, p.stm).count_ones() >= 2);
+        let q = mv_of(any_move());
+        let c = p.stm;
+        let kb = p.king_bb(c);
+        let own = p.colors[c as usize];
+        let danger = sp::attacked_by(&p, p.occ() & !kb, 1 - c);
+        let safe = sp::king_attacks(kb) & !own & !danger;
+        // oracle lemma: in double check a move is legal iff it is a king step onto a safe square
+        let king_step = sp::bit(q.from) == kb && safe & sp::bit(q.to) != 0 && q.promo == sp::NOPIECE;
+        assert!(sp::spec_legal(&p, q) == king_step);
+        unsafe {
+            P0 = p; Q = q; MASK = !0; PLAN_A = 0; PLAN_B = 0;
+            QLEGAL = sp::spec_legal(&p, q);
+            MODE = 1;
+        }
+        let b = mk_board(&p);
+        cut_on();
+        let r = status_code(b.status());
+        assert!(r == sp::spec_status(safe != 0, true, p.halfmove));
+        kani::cover!(safe == 0);
+        kani::cover!(safe != 0 && p.halfmove >= 100);
+    }
+}
